@@ -290,7 +290,8 @@ class _Gen(object):
 
   def pick_elementwise(self):
     return self.pick(["Activation", "Activation", "ReLU", "ReLU", "LeakyReLU",
-                      "BatchNormalization", "BatchNormalization", "Dropout"])
+                      "LeakyReLU", "BatchNormalization", "BatchNormalization",
+                      "Dropout"])
 
   # rank-3 tensors (H, W, C) ---------------------------------------------
   def step_image(self, preserve):
@@ -380,7 +381,7 @@ class _Gen(object):
       kw["recurrent_activation"] = self.pick(["sigmoid", "hard_sigmoid"])
     if cls == "GRU":
       kw["reset_after"] = False
-    if cls == "LSTM" and self.i(0, 3) == 0:
+    if cls == "LSTM" and self.flag():
       kw["unit_forget_bias"] = False
     return kw
 
@@ -398,7 +399,8 @@ class _Gen(object):
     if kind == "elementwise":
       return self.elementwise(self.pick(["Activation", "Activation",
                                          "BatchNormalization", "LeakyReLU",
-                                         "ReLU", "Dropout"]))
+                                         "LeakyReLU", "ReLU", "ReLU",
+                                         "Dropout"]))
     if kind == "Flatten":
       return self.add("Flatten", "flat", {}, [t * c])
     if kind in ("Conv1D", "SeparableConv1D"):
